@@ -146,3 +146,99 @@ impl std::io::Write for ChunkWriter {
         Ok(())
     }
 }
+
+/// An `io::Write` target that fails: the first `fail_at_call` `write_all` calls are accepted whole, every
+/// later call is answered with an `io::Error` and nothing of it is kept (`usize::MAX`: never fails, which
+/// makes it a recorder of the calls).  `write_all` is overridden so that every call counts, also one with
+/// an empty buffer (the default `write_all` would not reach `write` for it); a direct `write` counts the
+/// same way.  Model: `WriterPolicy.budget (some fail_at_call)` (lean/XotModel/Model/Writer.lean).
+pub struct FailingWriter {
+    pub fail_at_call: usize,
+    /// calls accepted so far
+    pub calls: usize,
+    /// bytes accepted so far
+    pub data: Vec<u8>,
+    /// `data.len()` after each accepted call
+    pub ends: Vec<usize>,
+    /// calls answered with an error (a caller that stops at the first error makes this at most 1)
+    pub refused: usize,
+}
+
+impl FailingWriter {
+    pub fn new(fail_at_call: usize) -> Self {
+        FailingWriter { fail_at_call, calls: 0, data: Vec::new(), ends: Vec::new(), refused: 0 }
+    }
+    /// Never fails: records the calls.
+    pub fn counting() -> Self {
+        FailingWriter::new(usize::MAX)
+    }
+    fn offer(&mut self, buf: &[u8]) -> std::io::Result<()> {
+        if self.calls >= self.fail_at_call {
+            self.refused += 1;
+            return Err(std::io::Error::new(std::io::ErrorKind::Other, "FailingWriter: call refused"));
+        }
+        self.calls += 1;
+        self.data.extend_from_slice(buf);
+        self.ends.push(self.data.len());
+        Ok(())
+    }
+}
+
+impl std::io::Write for FailingWriter {
+    fn write(&mut self, buf: &[u8]) -> std::io::Result<usize> {
+        self.offer(buf).map(|_| buf.len())
+    }
+    fn write_all(&mut self, buf: &[u8]) -> std::io::Result<()> {
+        self.offer(buf)
+    }
+    fn flush(&mut self) -> std::io::Result<()> {
+        Ok(())
+    }
+}
+
+/// The budget of the `rot`-th failing-writer case for a serialisation that makes `n` calls:
+/// refuse the first call, the second, one in the middle, the last, none (exact budget), none (spare budget).
+pub fn pick_budget(n: usize, rot: u64) -> (usize, &'static str) {
+    match rot % 6 {
+        0 => (0, "first-call"),
+        1 => (1, "second-call"),
+        2 => (n / 2, "middle"),
+        3 => (n.saturating_sub(1), "last-call"),
+        4 => (n, "exact-budget"),
+        _ => (n + 2, "spare-budget"),
+    }
+}
+
+/// Implementation-only oracle for one call of a Write-based entry point into `fw`, given the same call into a
+/// recorder (`reference`, never fails; `reference_kind` its outcome).  `kind` / `reference_kind` are the wire
+/// outcomes (`ok`, `err:Io`, `err:…`, `panic`).  A writer that fails must be answered with `Err(Error::Io)` —
+/// never a panic, never `Ok`, never another error — the serialisation must stop at the refused call, and what
+/// the writer holds must be a prefix of what the never-failing writer receives: exactly its first
+/// `fail_at_call` calls.  With enough budget nothing may differ from the never-failing run.
+/// Returns `(signature without the property prefix, what)`.
+pub fn failing_writer_verdict(kind: &str, fw: &FailingWriter, reference_kind: &str, reference: &FailingWriter) -> Option<(&'static str, String)> {
+    let k = fw.fail_at_call;
+    if kind == "panic" && reference_kind != "panic" {
+        return Some(("write-panics-when-the-writer-fails", format!("the Write-based entry point panics when the writer refuses call #{} (a never-failing writer: {})", k, reference_kind)));
+    }
+    if fw.refused > 1 {
+        return Some(("write-goes-on-after-the-writer-failed", format!("{} more write_all call(s) after the writer answered call #{} with an error", fw.refused - 1, k)));
+    }
+    if !reference.data.starts_with(&fw.data) {
+        return Some(("failing-writer-holds-bytes-that-are-no-prefix", format!("the writer that refuses call #{} holds {} byte(s) that are no prefix of the {} byte(s) a never-failing writer receives", k, fw.data.len(), reference.data.len())));
+    }
+    if fw.refused == 0 {
+        if kind != reference_kind || fw.data != reference.data {
+            return Some(("write-outcome-depends-on-sink", format!("budget {} was never exhausted ({} calls) but the call ended {} with {} byte(s); a never-failing writer: {} with {} byte(s)", k, fw.calls, kind, fw.data.len(), reference_kind, reference.data.len())));
+        }
+        return None;
+    }
+    if kind != "err:Io" {
+        return Some(("writer-error-not-reported-as-Io", format!("the writer refused call #{} but the call ended {} instead of err:Io", k, kind)));
+    }
+    let want = if k == 0 { 0 } else { reference.ends.get(k - 1).copied().unwrap_or(usize::MAX) };
+    if fw.calls != k || fw.data.len() != want {
+        return Some(("failing-writer-call-sequence-differs", format!("the writer that refuses call #{} accepted {} call(s) / {} byte(s); the first {} call(s) of a never-failing writer are {} byte(s)", k, fw.calls, fw.data.len(), k, want)));
+    }
+    None
+}
